@@ -141,6 +141,7 @@ impl Engine {
             admin: a.admin0.clone(),
             former_admin: None,
             nominee: None,
+            superseded: None,
             earliest: None,
             batches,
             pending: 1,
